@@ -3,6 +3,7 @@ package props
 import (
 	"fmt"
 	plencnull "github.com/philpearl/plenc/null"
+	"github.com/philpearl/plenc/plenccodec"
 	"github.com/unravelin/null"
 	"math"
 	"os"
@@ -77,8 +78,55 @@ func opCodec(name string, t reflect.Type) cop {
 		if err != nil {
 			return "error"
 		}
+		seenMu.Lock()
+		seenCodecs = append(seenCodecs, seenCodec{p, t, c})
+		seenMu.Unlock()
 		return fmt.Sprintf("codec:wt%d", c.WireType())
 	}}
+}
+
+// seenCodecs records what every CodecForType call of the current execution returned: run
+// alone, repeated calls for one type on one instance return one and the same codec object, so
+// concurrent calls (and calls made after they have settled) must too.
+type seenCodec struct {
+	p *plenc.Plenc
+	t reflect.Type
+	c plenccodec.Codec
+}
+
+var seenCodecs []seenCodec
+var seenMu stdsync.Mutex // the free-running race pass calls the same operations from real goroutines
+
+func sameCodec(a, b plenccodec.Codec) (same, comparable bool) {
+	defer func() {
+		if recover() != nil {
+			same, comparable = true, false
+		}
+	}()
+	return a == b, true
+}
+
+// codecIdentity checks the recorded codecs of the finished execution against one another and
+// against what the instance hands out now.
+func codecIdentity() (sig, detail string) {
+	for i, a := range seenCodecs {
+		now, err := a.p.CodecForType(a.t)
+		if err != nil {
+			return "codec-identity:later-call-fails", fmt.Sprintf("CodecForType(%s) returned a codec during the run and %v afterwards", a.t, err)
+		}
+		if same, ok := sameCodec(a.c, now); ok && !same {
+			return "codec-identity:concurrent-call-got-a-codec-the-instance-does-not-keep:" + a.t.String(),
+				fmt.Sprintf("CodecForType(%s) returned %T %p during the run, the instance now returns %p", a.t, a.c, a.c, now)
+		}
+		for _, b := range seenCodecs[i+1:] {
+			if a.p == b.p && a.t == b.t {
+				if same, ok := sameCodec(a.c, b.c); ok && !same {
+					return "codec-identity:two-calls-got-different-codecs:" + a.t.String(), fmt.Sprintf("CodecForType(%s) returned two different codec objects to concurrent callers", a.t)
+				}
+			}
+		}
+	}
+	return "", ""
 }
 
 var pkgNullOnce stdsync.Once
@@ -348,6 +396,7 @@ func runScenario(c *mc.Ctx, prop string, sc scenario) {
 	var got [][]string
 	bodies := func() []func() {
 		sched.Suspend(func() {
+			seenCodecs = seenCodecs[:0]
 			p = NewPlenc(sc.cfg)
 			for _, o := range sc.warm {
 				o.run(p)
@@ -382,6 +431,9 @@ func runScenario(c *mc.Ctx, prop string, sc scenario) {
 					return "result-differs-from-sequential:" + sc.threads[i][k].name, fmt.Sprintf("thread %d %s returned %s, alone it returns %s", i, sc.threads[i][k].name, got[i][k], want[i][k])
 				}
 			}
+		}
+		if sig, detail := codecIdentity(); sig != "" {
+			return sig, detail
 		}
 		// post-quiescence probe on the same instance, scheduler off
 		var ps []string
